@@ -92,5 +92,6 @@ Definition model_C03 (input : sx) : sx :=
   | 0 => model_expr input
   | 1 => model_C10 (nth_sx 1 input)
   | 2 => model_TOK (nth_sx 1 input)
+  | 4 => L [I 1; I 1]                          (* the resource probe K2 (a child process of the harness): nothing to model *)
   | _ => model_C14 (nth_sx 1 input)
   end.
